@@ -252,7 +252,7 @@ func c01Record(tag string, small bool) gRec {
 		r.comment = "A comment " + vBytes(2, c01Word) + "."
 	}
 	vn := 2
-	fcase := vChoice(9)
+	fcase := vChoice(10)
 	if fcase == 1 || fcase == 5 {
 		vn = vTier(2, 3) // 3-byte values for the plain and the wrapped qualifier only
 	}
@@ -271,6 +271,12 @@ func c01Record(tag string, small bool) gRec {
 		r.feats = []gFeat{{key: "gene", locLines: []string{"1..4"}, quals: []gQual{{"note", v}}, wrapAt: []int{vn}}}
 		vFindingClause("C01-F7", "qualifier-values-verbatim", v[vn+1] == '/')
 		vFindingClause("C01-F7", "qualifier-set-as-written", v[vn+1] == '/')
+	case 9:
+		// a wrapped value that also holds a run of two blanks (kept verbatim) before the wrap point
+		v := c01Value(2) + "  " + c01Value(2) + " " + c01Value(2)
+		r.feats = []gFeat{{key: "gene", locLines: []string{"1..4"}, quals: []gQual{{"note", v}}, wrapAt: []int{6}}}
+		vFindingClause("C01-F7", "qualifier-values-verbatim", v[7] == '/')
+		vFindingClause("C01-F7", "qualifier-set-as-written", v[7] == '/')
 	case 8:
 		// a wrapped /translation (re-joined without blank) followed by a wrapped /note (re-joined with one)
 		v := c01Value(vn) + " " + c01Value(vn)
